@@ -126,7 +126,8 @@ func TestCampaign(t *testing.T) {
 
 // TestReplay re-decides saved cases (VERIF_REPLAY = colon separated dirs)
 // without rapid.  Prints one line per case:
-//   REPLAY <dir> <expect> <outcome> <vkey> :: <what>
+//
+//	REPLAY <dir> <expect> <outcome> <vkey> :: <what>
 func TestReplay(t *testing.T) {
 	dirs := os.Getenv("VERIF_REPLAY")
 	if dirs == "" {
